@@ -32,6 +32,7 @@ def digit? (c : Char) : Option Nat :=
 def leafOf (w : String) : Option Ty :=
   if w == "ei" then some (.enum .Int32)
   else if w == "eu" then some (.enum .UInt32)
+  else if w.startsWith "@" then some (.other .Object)
   else match w.toList with
     | [c] => (scalarOf c).map .scalar
     | [c, n] => do let s ← scalarOf c; let n ← digit? n; pure (.vec s n)
